@@ -336,6 +336,48 @@ def all_sequences(fens, depth):
     return out
 
 
+def promo_sibling_family():
+    """two pawns on the seventh rank, two files apart, that can both capture-promote on the square between them, their
+    push squares blocked (so that the two groups of four promotions are neighbours in any generation order), and
+    exactly one of them pinned - on its file or on the outer diagonal; both colours. A generator that shares one
+    legality verdict among `the promotions to this square` gets these wrong (round-12 seed)."""
+    out = []
+    for d in range(1, 7):
+        for cap in "nbrq":
+            for variant in "ABCD":
+                for kr in (4, 3):
+                    b = [["." for _ in range(8)] for _ in range(8)]
+                    b[7][d] = cap
+                    b[6][d - 1] = "P"
+                    b[6][d + 1] = "P"
+                    b[7][d - 1] = "n"
+                    b[7][d + 1] = "n"
+                    if variant == "A":
+                        b[7][d + 1] = "r"
+                        b[kr][d + 1] = "K"
+                    elif variant == "B":
+                        b[7][d - 1] = "r"
+                        b[kr][d - 1] = "K"
+                    elif variant == "C":
+                        if d - 2 < 0 or kr != 4:
+                            continue
+                        b[7][d - 2] = "b"
+                        b[5][d] = "K"
+                    else:
+                        if d + 2 > 7 or kr != 4:
+                            continue
+                        b[7][d + 2] = "b"
+                        b[5][d] = "K"
+                    kf = 7 if d < 4 else 0
+                    if b[0][kf] != ".":
+                        continue
+                    b[0][kf] = "k"
+                    f = board_to_fen(b) + " w - - 0 1"
+                    out.append(f)
+                    out.append(mirror_fen(f))
+    return out
+
+
 def legal_filter(fens):
     """keep the FENs the specification calls legal positions (and the current model can load)"""
     res = run_batch(MDRV, [f"slegal\t{f}" for f in fens])
@@ -355,6 +397,7 @@ def position_pool(rng, n, long_games=False):
     targeted = legal_filter(list(dict.fromkeys(TARGETED)))
     add("suite", suite)
     add("targeted", targeted)
+    add("promo-siblings", legal_filter(promo_sibling_family()))
     n_con = max(50, n // 3)
     con = legal_filter(constructive(rng, int(n_con * 1.7)))[:n_con]
     add("constructive", con)
